@@ -76,6 +76,15 @@ int run_script(Make make, const std::string& header)
         else if (op == "owns") { long long off; is >> off; res = ar->owns(U.base + off) ? "true" : "false"; }
         else if (op == "fail") { long k; is >> k; U.fail_at = U.calls + k; res = "set"; }
         else if (op == "mv") { Arena* n = new (U.place(sizeof(Arena))) Arena(std::move(*ar)); graveyard.push_back(ar); ar = n; res = "moved"; }
+        else if (op == "mfa")
+        {   // move-assign a fresh arena (holding one block) into a moved-from one, then destroy it
+            bool own_source = header.find(" grow ") != std::string::npos || header.find(" fixed ") != std::string::npos;
+            if (graveyard.empty() || !own_source) { std::printf("%s = skipped\n", line.c_str()); continue; }
+            U.fail_at = -1;
+            Arena* g = graveyard.back(); graveyard.pop_back();
+            Arena* f = make(U.place(sizeof(Arena))); f->allocate_block();
+            *g = std::move(*f); g->~Arena(); graveyard.push_back(f); res = "done";
+        }
         else if (op == "destroy") { ar->~Arena(); for (auto g : graveyard) g->~Arena(); std::printf("destroy = ok |%s |\n", U.take().c_str()); break; }
         else { std::printf("? %s\n", line.c_str()); continue; }
         std::string ev = U.take();
